@@ -186,7 +186,8 @@ CHECKS["C20"] = dict(engine="GraphQL", design_ref="§5 C20",
          "unregistered scalars are undetermined; variables, directives and named fragments are outside the generated fragment")
 CHECKS["C13"] = dict(engine="Repro", design_ref="§5 C13",
     technique="TLA+ trace specification Repro.tla (lock-step comparison of request logs, bag comparison for several workers); the real engine is run in fresh "
-              "subprocesses with different PYTHONHASHSEED, in a warm process, with 3 workers and with another seed; the server log is the ground truth",
+              "subprocesses with different PYTHONHASHSEED, in a warm process, with 3 workers, with another seed, and after a twin schema (same operation labels, other parameter schemas) in the same process - the "
+              "process histories exported by ReproHistory.tla, whose TLC run proves HistoryFree for a content-keyed memo and refutes the label-keyed one; the server log is the ground truth",
     text="Trace validation against an explicit TLA+ specification of reproducibility. For each configuration the real engine is run six times against a deterministic, "
          "stateless scripted server; the server logs are cut per phase and projected to digests. Same seed with one worker requires position-wise equality and equal "
          "failure sets; several workers require per-operation bag equality in the examples, coverage and fuzzing phases; different seeds are unconstrained but checked "
